@@ -27,6 +27,11 @@ inductive RExp where
   | merge (call : String) (isMap : Bool) (e : RExp)
   /-- `DisabledExp`: null when `d` evaluates to true, else the value of `v` -/
   | disabled (d : RExp) (v : RExp)
+  /-- `e` read in fork `ix` of mapped call `call`: what a known index in `RefExp.Forks`
+  (`arrayIndex` / `mapKeyIndex`) says about the references below it.  A `merge` over a
+  call of statically known size is unrolled by the compiler into the array / typed map
+  of these (`MergeExp.BindingPath`). -/
+  | fork (call : String) (ix : Idx) (e : RExp)
 deriving Inhabited
 
 /-- run-time state: outputs of every node per fork assignment, and the index set
@@ -59,6 +64,7 @@ def evalR (st : StructTable) (ρ : Store) : ForkAssign → RExp → J
   | f, .merge c false e => .arr ((ρ.idx c f).map fun ix => evalR st ρ (fset f c ix) e)
   | f, .merge c true e => .obj ((ρ.idx c f).map fun ix => (ix.keyText, evalR st ρ (fset f c ix) e))
   | f, .disabled d v => if isTrue (evalR st ρ f d) then .null else evalR st ρ f v
+  | f, .fork c ix e => evalR st ρ (fset f c ix) e
 def evalRList (st : StructTable) (ρ : Store) : ForkAssign → List RExp → List J
   | _, [] => []
   | f, e :: es => evalR st ρ f e :: evalRList st ρ f es
@@ -93,6 +99,7 @@ def bpR (fld : String) : RExp → RExp
   | .split c m e => .split c m (bpR fld e)
   | .merge c m e => .merge c m (bpR fld e)
   | .disabled d v => mkDisabled d (bpR fld v)
+  | .fork c ix e => .fork c ix (bpR fld e)
 def bpRList (fld : String) : List RExp → List RExp
   | [] => []
   | e :: es => bpR fld e :: bpRList fld es
@@ -114,6 +121,7 @@ def wtR (st : StructTable) : Ty → RExp → Bool
   | t, .merge _ false e => t.arrDim != 0 && wtR st { t with arrDim := t.arrDim - 1 } e
   | t, .merge _ true e => t.arrDim == 0 && t.mapDim != 0 && wtR st ⟨t.base, 0, t.mapDim - 1⟩ e
   | t, .disabled _ v => wtR st t v
+  | t, .fork _ _ e => wtR st t e
 def wtRList (st : StructTable) : Ty → List RExp → Bool
   | _, [] => true
   | t, e :: es => wtR st t e && wtRList st t es
